@@ -27,7 +27,8 @@ C1 == 97
 C2 == 233
 C3 == 8364
 C4 == 128512
-Chars == {C1, C2, C3, C4}
+C5 == 769                     \* a combining acute accent: a scalar value of its own, whatever precedes it
+Chars == {C1, C2, C3, C4, C5}
 E1 == VInt(1)
 E2 == VFloat(5)               \* 2.5
 E3 == VStr(<<115>>)           \* "s"
@@ -49,7 +50,8 @@ SliceSet0 == UNION {{VArr(Pre(<<E1, E2, E3, E4, E5, E1>>, n)),
                      VStr(Pre(<<C1, C2, C3, C4, C1, C2>>, n)),
                      VStr(Pre(<<C4, C3, C2, C1, C4, C3>>, n)),
                      VStr(Pre(<<97, 98, 99, 100, 101, 102>>, n)),
-                     VStr(Pre(<<C4, C4, C4, C4, C4, C4>>, n))} : n \in 0..MaxLen}
+                     VStr(Pre(<<C4, C4, C4, C4, C4, C4>>, n)),
+                     VStr(Pre(<<C1, C5, C1, C5, C5, C2>>, n))} : n \in 0..MaxLen}
 SSeq == SetToSeq(SliceSet0)
 NS == Len(SSeq)
 
